@@ -119,17 +119,20 @@ def case_list(ctx: Ctx, rng, n_random: int):
 def evaluate(ctx: Ctx, res: Result, cases, rng, tag="run"):
     ops, metas = [], []
     for system, nrows, S, with_v, kind in cases:
-        T = fc.random_invariant(system, nrows, rng)
+        T = fc.random_invariant(system, nrows, rng, zero_one_row=bool(rng.integers(0, 3) == 0))
         cols, vals = build_case(system, T, S, with_v, rng)
         ops.append(fc.model_op(cols, vals, system, op="c08.fill"))
-        metas.append((system, T, cols, vals, S, kind))
+        ik = ["default", "default", "reversed", "offset", "float"][int(rng.integers(0, 5))]
+        metas.append((system, T, cols, vals, S, kind, ik))
     models = ctx.driver.ask(ops) if ops else []
-    for (system, T, cols, vals, S, kind), m in zip(metas, models):
+    for (system, T, cols, vals, S, kind, ik), m in zip(metas, models):
         if ctx.time_left() < 30: break
-        impl = fc.run_impl(cols, vals, system)
+        impl = fc.run_impl(cols, vals, system, index_kind=ik)
         model = fc.decode_model(m)
         res.evaluations += 1
-        payload = {"check": "fill", "system": system, "columns": cols, "values": vals, "tensor": T.tolist()}
+        payload = {"check": "fill", "system": system, "columns": cols, "values": vals, "tensor": T.tolist(), "index_kind": ik}
+        d0 = res.distribution
+        d0.setdefault("index_kinds", {}).setdefault(ik, 0); d0["index_kinds"][ik] += 1
         ok, note = fc.compare_outcomes(impl, model, RTOL)
         if ok: res.traces_validated += 1
         else: res.disagreements.append(Disagreement("c08.fill", payload, impl.get("status"), model.get("status"), note))
@@ -233,5 +236,5 @@ def replay(ctx: Ctx, payload):
         cols, vals = build_case(system, T, S, False, None)
     else:
         cols, vals = payload["columns"], payload["values"]
-        out = fc.run_impl(cols, vals, system)
+        out = fc.run_impl(cols, vals, system, index_kind=payload.get("index_kind", "default"))
     return [OracleFailure(what=w, input=payload, observed=o, expected=e) for w, o, e in oracle_fill(system, cols, vals, T, out)]
